@@ -34,3 +34,28 @@ def deep_dump(node, _ids=None):
     """structural dump *including list identities' contents* used to detect
     mutation of an input tree (lists are the only mutable part)."""
     return decode(node)
+
+
+def digest_ast(node):
+    """iterative structural fingerprint (safe for arbitrarily deep trees)"""
+    import hashlib
+    h = hashlib.sha1()
+    stack = [node]
+    n = 0
+    while stack:
+        v = stack.pop()
+        n += 1
+        if v is None:
+            h.update(b"N;")
+        elif isinstance(v, str):
+            h.update(b"s" + v.encode("utf8", "surrogatepass") + b";")
+        elif isinstance(v, (list, tuple)):
+            h.update(b"[" if isinstance(v, list) else b"(")
+            h.update(str(len(v)).encode())
+            stack.extend(reversed(v))
+        elif is_dataclass(v) and isinstance(v, ast._Node):
+            h.update(type(v).__name__.encode() + b":")
+            stack.extend(getattr(v, f.name) for f in reversed(fields(v)))
+        else:
+            h.update(b"<foreign " + type(v).__name__.encode() + b">")
+    return "%s/%d" % (h.hexdigest()[:16], n)
